@@ -496,8 +496,8 @@ def run(prog, rep):
         if _u is None:
             continue
         _nf, _miss = clean_covers_create(_u, _cr, _cl)
-        if _nf < 2:
-            raise AnalysisBroken("%s: %s stores fewer than two fields of the handle" % (_un, _cr))
+        if _nf < 1:
+            raise AnalysisBroken("%s: %s stores no field of the handle" % (_un, _cr))
         rep.ob(_rule, _u.fn(_cl, raw=True), "clean:covers-create", not _miss,
                "%s resets each of the %d fields %s stores" % (_cl, _nf, _cr) if not _miss else
                "%s no longer resets %s, which %s stores and tests: the recovery path (clean-up, then create again on the same object) finds the old value - "
